@@ -352,6 +352,13 @@ def oracle(ctx):
 def regressions(ctx, rng):
     """inputs of repaired defects that random chains reach rarely"""
     import skfem
+    # public call forms that forward to the core (coverage audit)
+    run_op(ctx, O.op_constructors, O.tagged_mesh('MeshTri1', rng), rng)
+    for it in range(ctx.n(4, 16)):
+        mm = O.tagged_mesh(['MeshTri1', 'MeshQuad1', 'MeshTet1', 'MeshHex1'][it % 4], rng, holes=False)
+        run_op(ctx, O.op_selector_forms, mm, rng)
+        run_op(ctx, O.op_rmatmul_trace, mm, rng)
+        run_op(ctx, O.op_line_surgery, mm, rng)
     # keys of the facet lookup of to_meshtri beyond 2^31 (one mesh with 48400 points; about 0.5 s)
     run_op(ctx, O.op_to_meshtri_large, O.tagged_mesh('MeshQuad1', rng), rng)
     for it in range(ctx.n(6, 30)):
@@ -406,12 +413,53 @@ def run(ctx):
     gen_ok = not errors
     ctx.compile_dyn(['gen/C18Gen.v'] + ctx.copy_dyn())
     ctx.prove()
+    from ..c17_cov import Recorder
+    rec = Recorder()
+    rec.__enter__()
     try:
         correspondence(ctx, gen_ok)
     except Exception as e:      # noqa: BLE001 — the implementation raised while the cases were generated: the oracle
         import traceback        # below looks for the concrete input; the tie is reported as broken in any case
         ctx.broke('correspondence', f'case generation raised {type(e).__name__}', traceback.format_exc())
-    oracle(ctx)
+    try:
+        oracle(ctx)
+    finally:
+        rec.__exit__()
+    ctx.extra['api_coverage'] = rec.table(API_NOTES)
+
+
+API_NOTES = {
+             'draw': 'visualisation: out of scope',
+             'plot': 'visualisation: out of scope',
+             'element_finder': 'point location: property C14',
+             'mapping': 'reference mapping: property C10',
+             'p2e': 'incidence table: property C11',
+             'p2f': 'incidence table: property C11',
+             'p2t': 'incidence table: property C11',
+             'e2t': 'incidence table: property C11',
+             'f2e': 'derived connectivity: property C11',
+             'boundary_edges': 'derived connectivity: property C11',
+             'interior_edges': 'derived connectivity: property C11',
+             'boundary_nodes': 'derived connectivity: property C11',
+             'interior_nodes': 'derived connectivity: property C11',
+             'edges_satisfying': 'selector on edges: property C07/C11',
+             'nodes_satisfying': 'selector on nodes: property C07',
+             'normalize_nodes': 'selector on nodes: property C07',
+             'param': 'mesh parameter: not part of the statement',
+             'params': 'mesh parameter: not part of the statement',
+             'hash_args': 'cache key: property C15',
+             'deprecated': 'decorator: out of scope',
+             'smoothed': 'moves interior vertices, not one of the operations of the statement',
+             'brefdom': 'accessor',
+             'periodic': 'MeshDG constructor: periodic meshes are not among the classes of the statement',
+             'init_tensor': 'constructor (used to build the test meshes)',
+             'strip_extra_coordinates': 'exercised by the 2-D vtk/vtu round trips',
+             'is_valid': 'validation helper (the oracle validates independently)',
+             '__iter__': 'p, t = mesh: accessor',
+             'load': 'MeshDG.load / save raise NotImplementedError by design',
+             'save': 'MeshDG.load / save raise NotImplementedError by design'}
+
+API_NOTES.update({n: 'save / load: exercised by the check of property C17' for n in ['from_file', 'to_file', 'from_meshio', 'to_meshio', 'from_dict', 'to_dict', 'load', 'save', 'load_npz', 'save_npz', 'strip_extra_coordinates', 'refdom']})
 
 
 def replay(ctx, data):
